@@ -159,20 +159,44 @@ def close(a, b, exact):
     return abs(a - b) <= 16 * max(math.ulp(a), math.ulp(b), math.ulp(SCALE[0]))
 
 
-def check_1d(kind, cfg, fillset, lo, hi):
-    """fillset: list of (bin key, weight). Query (lo, hi) (None = open). Returns violations."""
+def check_1d(kind, cfg, fillset, lo, hi, via="fill"):
+    """fillset: list of (bin key, weight). Query (lo, hi) (None = open). Returns violations.
+    via == "fill-view-merge": the first datum is filled, every view is asked once (anything remembered by a view
+    must not outlive a mutation), the remaining data arrive through an in-place merge (+=) and a fill.numpy."""
     args = {"kind": kind, "cfg": [A.show(float(c)) if isinstance(c, float) else c for c in cfg],
-            "fill": [[k, w] for k, w in fillset], "lo": A.show(lo), "hi": A.show(hi)}
+            "fill": [[k, w] for k, w in fillset], "lo": A.show(lo), "hi": A.show(hi), "via": via}
     out = []
     geo = Geo(kind, cfg, [k for k, _ in fillset], (lo, hi))
     SCALE[0] = max([abs(e) for e in geo.finite_edges()] + [1e-300])
     h = build(kind, cfg)
     content = {}
     try:
-        for k, w in fillset:
-            x = geo.interior(k)
-            h.fill(x, w)
-            content[k] = content.get(k, 0.0) + w
+        if via == "fill":
+            for k, w in fillset:
+                x = geo.interior(k)
+                h.fill(x, w)
+                content[k] = content.get(k, 0.0) + w
+        else:
+            for k, w in fillset:
+                content[k] = content.get(k, 0.0) + w
+            first, rest = fillset[:1], fillset[1:]
+            for k, w in first:
+                h.fill(geo.interior(k), w)
+            for nm in ("num_bins", "bin_edges", "bin_centers", "bin_entries", "bin_width"):
+                try:
+                    getattr(h, nm)()
+                except Exception:
+                    pass
+            try:
+                h.mpv
+            except Exception:
+                pass
+            g = build(kind, cfg)
+            for k, w in rest[:1]:
+                g.fill(geo.interior(k), w)
+            h += g
+            for k, w in rest[1:]:
+                h.fill.numpy(np.array([geo.interior(k)]), np.array([w]))
     except Exception as e:
         return [core.v_exc(PROP, "views1d", "fill raised", e, args)]
     full = lo is None and hi is None
@@ -359,6 +383,10 @@ def _config(task):
         for lo, hi in queries:
             acc.add(check_1d(kind, cfg, fs, lo, hi))
             acc.n("range_queries")
+            if len(fs) >= 2 and (lo is None or hi is None):
+                acc.add(check_1d(kind, cfg, list(reversed(fs)), lo, hi, via="fill-view-merge"))
+                acc.n("range_queries")
+                acc.n("queries_after_view_then_merge")
             acc.distinct("cases", FW.hkey((kind, repr(cfg), repr(fs), repr(A.show(lo)), repr(A.show(hi)))))
         xs = ps + [float("inf"), float("-inf")]
         acc.add(check_xvalues(kind, cfg, fs, xs))
@@ -585,7 +613,8 @@ def replay(driver, args):
 
     if driver == "views1d":
         cfg = [un(c) for c in args["cfg"]]
-        return check_1d(args["kind"], cfg, [tuple(f) for f in args["fill"]], un(args["lo"]), un(args["hi"]))
+        return check_1d(args["kind"], cfg, [tuple(f) for f in args["fill"]], un(args["lo"]), un(args["hi"]),
+                        args.get("via", "fill"))
     if driver == "xvalues":
         cfg = [un(c) for c in args["cfg"]]
         return check_xvalues(args["kind"], cfg, [tuple(f) for f in args["fill"]], [un(x) for x in args["xs"]])
